@@ -19,7 +19,7 @@ func (propC11) ID() string { return "C11" }
 var c11Alphabet = []rune{'a', 'b', '\n', '\r', '\n', '\r', 'é', 0x1F600}
 
 func (propC11) Gen(r *Rand) *Plan {
-	n := r.Range(0, 12)
+	n := r.Range(0, 12*Scale)
 	if r.Bool(0.1) {
 		n = r.Range(0, 2)
 	}
@@ -27,7 +27,7 @@ func (propC11) Gen(r *Rand) *Plan {
 	for i := range content {
 		content[i] = r.PickRune(c11Alphabet)
 	}
-	nops := r.Range(1, 40)
+	nops := r.Range(1, 40*Scale)
 	// biased phases
 	phase := r.Intn(4)
 	var ops []Op
